@@ -555,6 +555,8 @@ func checkC03(c *Ctx) {
 	c3NilError(c)
 	c3DeepTypes = map[string]bool{}
 	c3Equals(c, byType)
+	c.Rule("R3.11", "the pooled wrappers that carry a field's value to the encoder (error elements, buffers, encoders) are never touched after their release (a write into a wrapper the pool has handed on replaces another call's value)", 8)
+	c8UseAfterRelease(c, "R3.11", c8ReleaseFns(c))
 	c.Rule("R3.10", "payloads that Field.Equals compares with reflect.DeepEqual are never functions (DeepEqual of non-nil functions is false: such a field would not equal itself)", 10)
 	c3NoFuncPayload(c, "R3.10", byType)
 	c3NilPlaceholder(c)
@@ -1165,6 +1167,69 @@ func idx2(order []string, idx map[string]int) []string {
 	return s
 }
 
+// c3ObjectElems: the generic object-array wrappers hand the encoder the caller's own elements: Objects the element
+// itself, ObjectValues the address of the element inside the caller's slice (not of a copy: a marshaler with a pointer
+// receiver sees - and may lock or update - the original); every element is visited, and the first error is returned.
+func c3ObjectElems(c *Ctx, fn *ssa.Function, byAddr bool) {
+	name := fn.String()
+	if fn.Origin() != nil && fn.Origin() != fn {
+		return // decided once, on the generic body
+	}
+	recv := fn.Params[0]
+	isApp := func(cl ssa.CallInstruction) bool {
+		return cl.Common().IsInvoke() && cl.Common().Method.Name() == "AppendObject"
+	}
+	var app *ssa.Call
+	n := 0
+	for _, cl := range CallsDeep(fn) {
+		if isApp(cl) {
+			app, _ = cl.(*ssa.Call)
+			n++
+		}
+	}
+	if n != 1 || app == nil {
+		c.Bad("R3.4", name, "append", fn.Pos(), "expected exactly one AppendObject call per element, found %d", n)
+		return
+	}
+	v := app.Call.Args[0]
+	for k := 0; k < 6; k++ {
+		switch x := v.(type) {
+		case *ssa.MakeInterface:
+			v = x.X
+			continue
+		case *ssa.ChangeType:
+			v = x.X
+			continue
+		case *ssa.ChangeInterface:
+			v = x.X
+			continue
+		}
+		break
+	}
+	ok := false
+	what := "the element itself"
+	if byAddr {
+		what = "the address of the element in the caller's slice"
+		ia, isIA := v.(*ssa.IndexAddr)
+		ok = isIA && Strip(ia.X) == ssa.Value(recv)
+	} else {
+		if ld, isLd := v.(*ssa.UnOp); isLd && ld.Op == token.MUL {
+			ia, isIA := ld.X.(*ssa.IndexAddr)
+			ok = isIA && Strip(ia.X) == ssa.Value(recv)
+		}
+	}
+	// every element, unless an element's error ends the loop (the returns are decided below: nil, or that error)
+	visits, over, why := LoopVisitsAll(app.Parent(), app)
+	if !visits && strings.Contains(why, "early return") && app.Parent() == fn {
+		visits, why = true, ""
+	}
+	c.Check(ok && visits && over == PN(recv), "R3.4", name, "every-element-itself", app.Pos(), "AppendObject receives %s (%s), for every element of %s until one fails %s", what, Desc(app.Call.Args[0]), over, why)
+	for k, r := range Returns(fn) {
+		rv := RetVals(r)[0]
+		c.Check(IsNilConst(Strip(rv)) || Strip(rv) == ssa.Value(app), "R3.4", name, "return#"+itoa(k+1), r.Pos(), "returns nil or the error just received (%s)", Desc(rv))
+	}
+}
+
 func c3Slices(c *Ctx) {
 	arrEnc := c.Named(CorePath, "ArrayEncoder")
 	if !c.Anchor("R3.4", "zapcore.ArrayEncoder", arrEnc != nil) {
@@ -1189,6 +1254,10 @@ func c3Slices(c *Ctx) {
 				continue
 			}
 			name := fn.String()
+			if on := rn.Obj().Name(); on == "objects" || on == "objectValues" {
+				c3ObjectElems(c, fn, on == "objectValues")
+				continue
+			}
 			if why, ok := exempt[rn.Obj().Name()]; ok {
 				c.Triv("R3.4", name, "exempt", fn.Pos(), "decided elsewhere: %s", why)
 				continue
